@@ -825,6 +825,21 @@ std::string importeeModelUrl(const History &history, const std::string &url);
 bool checkForImportCycles(const History &history, const HistoryEpochPtr &h);
 
 /**
+ * @brief Test whether the entity of an epoch is already part of the history.
+ *
+ * Test whether the entity (same owning model instance, same name, same type) described by
+ * the history epoch @p h is already present in the @p history.  In contrast to
+ * @ref checkForImportCycles this does not compare the hrefs of import sources: when walking
+ * over resolved imports those are relative to different files and say nothing about identity.
+ *
+ * @param history The history to search.
+ * @param h The history epoch to look for.
+ *
+ * @return @c true if the entity is already present in the history, @c false otherwise.
+ */
+bool checkForRepeatedEntity(const History &history, const HistoryEpochPtr &h);
+
+/**
  * @brief Form the description for a cyclic dependency.
  *
  * Form the description for a cyclic dependency.
